@@ -7,6 +7,7 @@ package absnfs
 // in ACCESS decisions.
 
 import (
+	"encoding/binary"
 	"encoding/json"
 	"fmt"
 	"strings"
@@ -83,13 +84,35 @@ func c10Validate(c *vCtx, cs c10Case) {
 		body = full[:n]
 		wellFormed = false
 		ctx.Credential.Body = body
+	case strings.HasPrefix(cs.Body, "lenword:"):
+		// a length word of the body (machine-name length / number of gids) replaced by a huge value
+		var which string
+		var v uint32
+		fmt.Sscanf(strings.Replace(cs.Body[8:], "=", " ", 1), "%s %d", &which, &v)
+		body = append([]byte{}, full...)
+		off := 4 // machine-name length word
+		if which == "ngids" {
+			off = 4 + 4 + (cs.NameLen+3)&^3 + 8
+		}
+		binary.BigEndian.PutUint32(body[off:], v)
+		wellFormed = false
+		ctx.Credential.Body = body
 	case cs.Body == "trailing":
 		ctx.Credential.Body = append(append([]byte{}, full...), 0xde, 0xad, 0xbe, 0xef)
 	default:
 		ctx.Credential.Body = body
 	}
 	policy := &PolicyOptions{Squash: cs.Mode}
-	res := ValidateAuthentication(ctx, policy)
+	var res *AuthResult
+	if p := func() (p any) {
+		defer func() { p = recover() }()
+		res = ValidateAuthentication(ctx, policy)
+		return nil
+	}(); p != nil || res == nil {
+		c.violation(fmt.Sprintf("C10|credential-check-panics|flavor=%d|body=%s", cs.Flavor, strings.SplitN(cs.Body, ":", 2)[0]),
+			fmt.Sprintf("ValidateAuthentication panicked on body % x: %v", ctx.Credential.Body, p), cs)
+		return
+	}
 	allowed, uid, gid, aux, auxJudged := c10Expect(cs)
 	if cs.Flavor == 1 && !wellFormed {
 		allowed = false
@@ -253,7 +276,7 @@ func init() {
 	vRegister(&vCheck{
 		id: "C10", level: "exploration", flavour: "vtime",
 		shards: func(string) int { return 8 },
-		rule:   "complete product uid x gid in {0,1,1000,65533,65534,65535,2^31-1,2^31,2^32-1}^2 x 43 auxiliary lists (all lists of length <=3 over {0,1,65534}, lengths 15/16/17) x squash modes {\"\",none,root,all,ROOT,All,nOnE,bogus} x {body parsed from bytes, credential pre-parsed with a slice shared with the caller}; flavors {0,1,2,3,6,2^32-1}; every byte-prefix of a well-formed AUTH_SYS body; machine-name lengths {0..5,255,8192,8193}; trailing bytes; judged against an independent mapping function. End-to-end slice through HandleCall: the effective identity is read from the chown MKDIR issues and from an ACCESS decision on a group-0 file. Non-trivial = AUTH_SYS case whose expected mapping differs from the identity mapping or is a denial.",
+		rule:   "complete product uid x gid in {0,1,1000,65533,65534,65535,2^31-1,2^31,2^32-1}^2 x 43 auxiliary lists (all lists of length <=3 over {0,1,65534}, lengths 15/16/17) x squash modes {\"\",none,root,all,ROOT,All,nOnE,bogus} x {body parsed from bytes, credential pre-parsed with a slice shared with the caller}; flavors {0,1,2,3,6,2^32-1}; every byte-prefix of a well-formed AUTH_SYS body; machine-name lengths {0..5,255,8192,8193}; the machine-name length word and the gid-count word replaced by {17,256,8193,2^31-1,2^31,2^32-4..2^32-1} (must be denied, never panic); trailing bytes; judged against an independent mapping function. End-to-end slice through HandleCall: the effective identity is read from the chown MKDIR issues and from an ACCESS decision on a group-0 file. Non-trivial = AUTH_SYS case whose expected mapping differs from the identity mapping or is a denial.",
 		assumptions: []string{"bytes after a complete AUTH_SYS credential are explored (no panic) but accept/deny is not judged",
 			"for an unrecognised mode only uid and gid are judged (the property says nothing about auxiliary gids there)"},
 		run: func(c *vCtx) {
@@ -305,6 +328,14 @@ func init() {
 					cs := c10Case{Seam: "validate", Mode: "root", Flavor: 1, UID: 0, GID: 5, Aux: []uint32{0}, Body: "wellformed", NameLen: nl}
 					c10Validate(c, cs)
 					c.res.Distinct++
+				}
+				for _, which := range []string{"name", "ngids"} {
+					for _, v := range []uint32{17, 256, 8193, 1<<31 - 1, 1 << 31, 1<<32 - 4, 1<<32 - 3, 1<<32 - 2, 1<<32 - 1} {
+						for _, m := range []string{"none", "root", "all"} {
+							c10Validate(c, c10Case{Seam: "validate", Mode: m, Flavor: 1, UID: 0, GID: 0, Aux: []uint32{0, 5}, Body: fmt.Sprintf("lenword:%s=%d", which, v), NameLen: 3})
+							c.res.Distinct++
+						}
+					}
 				}
 				c10Validate(c, c10Case{Seam: "validate", Mode: "root", Flavor: 1, UID: 0, GID: 0, Aux: []uint32{0}, Body: "trailing"})
 			}
